@@ -129,6 +129,36 @@ def policies(sym, tier):
     return r
 
 
+def priority_stability(sym, tier):
+    """All items share one priority: PriorityQueue must behave exactly like a FIFO under any
+    interleaving of pushes and pops (stable priority)."""
+    r = Result()
+    n = 8 if tier == "quick" else 10
+    q = PriorityQueue(capacity=float("inf"), key=lambda it: it.key)
+    prio = sym.int("shared_priority", 0, 3)
+    ref = []
+    nid = 0
+    script = []
+    for s_ in range(n):
+        if sym.bool(f"push{s_}") or s_ == 0:
+            it = _Item(nid, prio, "f0")
+            nid += 1
+            q.push(it)
+            ref.append(it)
+            script.append("push")
+        else:
+            got = q.pop()
+            want = ref.pop(0) if ref else None
+            script.append("pop")
+            if (got is None) != (want is None) or (got is not None and got.ident != want.ident):
+                r.bad("equal_priorities_leave_in_arrival_order", {"script": script, "got": None if got is None else got.ident, "want": None if want is None else want.ident})
+                break
+            if got is not None and ref and nid > len(ref) + 1:
+                r.wit.add("pop_with_backlog_after_earlier_pops")
+    r.obs = {"script": script}
+    return r
+
+
 # ------------------------------------------------------------------ pipeline
 SERVICE = [(1e-9, 1), (3e-9, 3)]
 
@@ -229,6 +259,11 @@ HARNESSES = [
       bounds=lambda tier: {"ops": 5 if tier == "quick" else 6, "capacity": "symbolic [1,3]", "keys": "symbolic [0,3] (priority / deadline ns)", "flows": 2,
                            "deadline clock": "symbolic non-decreasing"},
       outside=["CoDel / RED / AdaptiveLIFO / WeightedFairQueue policies (drop decisions are probabilistic or time-based; not in the statement's list)"]),
+    H(name="c08_priority_stability", fn=priority_stability, shape="I", budget=lambda tier: 900.0,
+      cubes=lambda tier: [{"push1": a, "push2": b} for a in range(2) for b in range(2)],
+      require=lambda tier: ["pop_with_backlog_after_earlier_pops"],
+      functions=["PriorityQueue.push/pop", "_PriorityEntry ordering"],
+      bounds=lambda tier: {"ops": 8 if tier == "quick" else 10, "priority": "one symbolic value shared by all items"}),
     H(name="c08_pipeline", fn=pipeline, shape="S", budget=lambda tier: 900.0 if tier == "quick" else 3000.0,
       cubes=lambda tier: [{"concurrency_minus_1": a, "service": s, "via_forwarder0": v, "via_forwarder1": w} for a in range(2) for s in range(2) for v in range(2) for w in range(2)],
       require=lambda tier: ["queue_full_drop", "same_instant_different_hops"], classify=_pipe_classify,
